@@ -432,6 +432,9 @@ func drive(cfg driveCfg) int {
 		rf := map[string]interface{}{"property": final.Property, "oracle": final.Oracle, "site": final.Site, "detail": final.Detail,
 			"plan": final.Plan, "observed": final.Observed, "expected": final.Expected, "verif_seed": cfg.seed,
 			"minimisation": note, "replay": fmt.Sprintf("/verif/bin/check replay %s", path)}
+		if eng.Describe != nil {
+			rf["plan_shape"] = eng.Describe(final.Plan)
+		}
 		writeJSONIndent(path, rf)
 		if f := known.match(final); f != nil {
 			fmt.Printf("KNOWN-FINDING: property=%s %s [%s site=%s] replay=%s\n", cfg.prop, f.What, final.Oracle, final.Site, path)
@@ -456,6 +459,7 @@ func drive(cfg driveCfg) int {
 		"plans_run":              tot.Runs,
 		"distinct_plans":         len(tot.Nontrivial),
 		"distinct_run_digests":   tot.RunDigests,
+		"distinct_interleavings": distinctInterleavings(cfg.prop, tot),
 		"seeds":                  seedStrs,
 		"runs_per_hour":          int64(float64(tot.Runs) / exploreWall.Hours()),
 		"evaluations_per_hour":   int64(float64(tot.Evals) / exploreWall.Hours()),
@@ -500,6 +504,19 @@ func drive(cfg driveCfg) int {
 		return 2
 	}
 	return exit
+}
+
+// distinctInterleavings: for C13 every run digest covers the scheduler's event log
+// (who ran at which point) and all results, so distinct digests = distinct interleavings x outcomes.
+func distinctInterleavings(prop string, tot WorkerOut) interface{} {
+	switch prop {
+	case "C13":
+		return map[string]interface{}{"measure": "distinct digests of (scheduler event log, per-operation results), summed over workers whose plan indices are disjoint", "count": tot.RunDigests}
+	case "C17":
+		return map[string]interface{}{"measure": "distinct digests of (interleaved/permuted/case-mutated/reduced history fingerprints)", "count": tot.RunDigests}
+	default:
+		return map[string]interface{}{"measure": "single caller: distinct digests of (chunk/fault schedule outcomes)", "count": tot.RunDigests}
+	}
 }
 
 func writeJSONIndent(path string, v interface{}) error {
